@@ -1,0 +1,53 @@
+//go:build verif
+
+// Verification contracts (comments only; compiled only with -tags verif).
+// Checked by /verif/bin/govc; see /verif/DESIGN.md.
+
+package standard
+
+//@ type Service
+//@   // established by New (parseAndCheckParameters rejects nil for each of these); the chain's target number of
+//@   // aggregators per committee and its slots per epoch are positive
+//@   valid self.slotSelectionSigner != nil && self.aggregateAttestationProvider != nil && self.validatingAccountsProvider != nil && self.aggregateAndProofSigner != nil && self.aggregateAttestationsSubmitter != nil && self.chainTime != nil
+//@   valid self.targetAggregatorsPerCommittee > 0 && self.slotsPerEpoch > 0
+//@
+//@ // ---- C14: a validator is marked as aggregator exactly when the specification's rule on its slot signature says so ----
+//@ // is_aggregator: the first eight bytes (little endian) of sha256(slot signature), modulo
+//@ // max(1, committee size / TARGET_AGGREGATORS_PER_COMMITTEE), is zero
+//@ spec func selHash(sig phase0.BLSSignature) uint64
+//@ spec func slotSignature(account e2wtypes.Account, slot phase0.Slot) phase0.BLSSignature
+//@
+//@ // the standard library's SHA-256: a hash object is returned, and a sum appended to nothing has 32 bytes
+//@ extern crypto/sha256.New
+//@   ensures !isnil(result)
+//@ extern (hash.Hash).Sum
+//@   ensures len(result) >= 32
+//@
+//@ func (*Service).AggregatorsAndSignatures
+//@   requires s != nil && len(committeeSizes) == len(accounts)
+//@   assumes call SignSlotSelections#1 (sgs, err): err == nil ==> len(sgs) == len(arg1) && (forall k int :: 0 <= k && k < len(sgs) ==> sgs[k] == slotSignature(arg1[k], arg2))
+//@   // assumed: what is hashed is the slot signature (the data flow through the hash object is not modelled)
+//@   assumes call Uint64#1 (v): v == selHash(signature)
+//@   loop 1
+//@     invariant -1 <= rangeindex && rangeindex < len(sigs) && len(aggregators) == len(sigs)
+//@     invariant forall j int :: 0 <= j && j <= rangeindex ==> (aggregators[j] <==> selHash(sigs[j]) % max(1, committeeSizes[j] / s.targetAggregatorsPerCommittee) == 0)
+//@   ensures result2 == nil ==> len(result0) == len(accounts) && len(result1) == len(accounts)
+//@   ensures result2 == nil ==> forall j int :: 0 <= j && j < len(accounts) ==> result0[j] == slotSignature(accounts[j], slot) && (result1[j] <==> selHash(result0[j]) % max(1, committeeSizes[j] / s.targetAggregatorsPerCommittee) == 0)
+//@
+//@ // ---- C14: an aggregation job signs and submits the aggregate for its own duty ----
+//@ // hashing the message reads it only
+//@ extern (*github.com/attestantio/go-eth2-client/spec/phase0.AggregateAndProof).HashTreeRoot
+//@   modifies nothing
+//@
+//@ func (*Service).Aggregate
+//@   requires s != nil && duty != nil
+//@   // go-eth2-client returns a response with every nil error, and its decoder refuses an attestation without data
+//@   assumes call AggregateAttestation#1 (r, err): err == nil ==> r != nil && r.Data != nil && r.Data.Data != nil
+//@   // the aggregate is requested for the duty's slot and attestation data
+//@   at call AggregateAttestation#1: assert arg1 != nil && arg1.Slot == duty.Slot && arg1.AttestationDataRoot == duty.AttestationDataRoot
+//@   // the account is looked up for the duty's validator, and what is signed names that validator, the aggregate
+//@   // received and the duty's selection proof
+//@   at call ValidatingAccountsForEpochByIndex#1: assert len(arg2) == 1 && arg2[0] == duty.ValidatorIndex
+//@   at call SignAggregateAndProof#1: assert arg2 == duty.Slot && aggregateAndProof.AggregatorIndex == duty.ValidatorIndex && aggregateAndProof.Aggregate == aggregateAttestation && aggregateAndProof.SelectionProof == duty.SlotSignature
+//@   // exactly that message is submitted, with the signature obtained
+//@   at call SubmitAggregateAttestations#1: assert len(arg1) == 1 && arg1[0] != nil && arg1[0].Message == aggregateAndProof && arg1[0].Signature == sig
